@@ -150,6 +150,17 @@ theorem cache_invisible_reachable (cmpOf : Bytes → CmpKind) (hist : List Gkv.M
     omega
   exact cache_invisible _ _ c.cmp.fn _ c.root (inv.coherent c hc) hf ops view hr
 
+open Gkv.Cache in
+/-- … and with range visits — to the end or stopped by the visitor at any item, either direction,
+    with or without values, each evicting what it leaves — anywhere among the lookups and
+    evictions: still every call answers as Model A does on the one abstract tree (`AgreeAll2`: a
+    visit is handed Model A's sequence, or its first `stop` items), and the view stays a view. -/
+theorem cache_invisible_with_visits (f : Bytes) (bound : Nat) (cmp : Bytes → Bytes → Ordering)
+    (fuel : Nat) (T : Tree) (hc : T.Coherent f bound) (hf : T.height < fuel) (ops : List COp2)
+    (c : CTree) (hr : Rep c T) :
+    ∃ outs c' rds, runC2 f cmp fuel ops c = some (outs, c', rds) ∧ Rep c' T ∧ AgreeAll2 cmp T outs ops :=
+  runC2_spec f bound cmp fuel T hc hf ops c hr
+
 -- non-vacuity: a concrete history with an overwrite and a delete
 example : (([Mut.set ⟨[1], [10], 5⟩, .set ⟨[2], [20], 9⟩, .set ⟨[1], [11], 1⟩, .del [2]] : List Mut).foldl
     (applySpec cmpBytes) []) = [⟨[1], [11], 1⟩] := by decide
